@@ -227,7 +227,7 @@ func main() {
 	}
 
 	n := 0
-	if p.Workers != nil {
+	if p.Workers != nil && freeRuns == 0 { // the race-detector pass runs in this one process
 		n = p.Workers(env)
 	}
 	if n == 0 {
